@@ -179,6 +179,12 @@ func readA(pj *simdjson.ParsedJson) (out []abs.Value, err error) {
 	}
 }
 
+// ValueOf reads the single value an iterator is positioned on.
+func ValueOf(it *simdjson.Iter, typ simdjson.Type) (v abs.Value, err error) {
+	defer guard(&err)
+	return valueA(it, typ, &budget{n: 1 << 20})
+}
+
 // ---- B: AdvanceIter / ForEach ----------------------------------------------
 
 func valueB(it *simdjson.Iter, typ simdjson.Type, b *budget) (abs.Value, error) {
